@@ -4,7 +4,7 @@
    This file only restates the property theorems; proofs are in frame/*Proofs.v. *)
 From Coq Require Import List NArith ZArith Bool.
 From JV Require Import Bytes FrameBase FrameBaseProofs FrameSpec Split SplitProofs Hdr HdrProofs
-  HdrSpec HdrSpecProofs JsonScan JsonScanProofs RawJson RawJsonProofs FrameMore Chunked ChunkedProofs ChunkedHdr ChunkedHdrProofs.
+  HdrSpec HdrSpecProofs JsonScan JsonScanProofs RawJson RawJsonProofs FrameMore Chunked ChunkedProofs ChunkedHdr ChunkedHdrProofs HdrMore RawJsonMore.
 From RecordUpdate Require Import RecordUpdate.
 From JV Require Import Msg SrvModel SrvC12.
 Import ListNotations.
@@ -71,6 +71,19 @@ Theorem c12_split_exhausted : forall c b,
   Split.recv c b tt [] = Err EEOF tt [] /\ Split.recv_all c b [] = [IErr EEOF].
 Proof. exact (fun c b => conj (split_exhausted c b) (split_exhausted_all c b)). Qed.
 Print Assumptions c12_split_exhausted.
+
+(* the n-th call for EVERY n (call_n recv n st s = the result of call number n+1; after a crash
+   there is no later call): never a panic, never out of fuel *)
+Theorem c12_split_every_call : forall n b s,
+  match call_n (Split.recv cfg_fixed b) n tt s with Crash _ | OutOfFuel => False | _ => True end.
+Proof. exact split_every_call. Qed.
+Print Assumptions c12_split_every_call.
+
+(* "once the stream is exhausted it keeps failing": from call |s|+1 on EVERY call returns io.EOF *)
+Theorem c12_split_eventually_eof : forall n b s,
+  (length s <= n)%nat -> call_n (Split.recv cfg_fixed b) n tt s = Err EEOF tt [].
+Proof. exact split_eventually_eof. Qed.
+Print Assumptions c12_split_eventually_eof.
 
 (* ---- StrictHeader / Header / LSP ---- *)
 
@@ -168,6 +181,61 @@ Theorem c12_header_rules : forall p want st s ct r rest,
 Proof. exact hdr_complete. Qed.
 Print Assumptions c12_header_rules.
 
+(* "require a non-negative decimal Content-Length", explicitly: for EVERY header block of the
+   reference grammar (any fields, any line ends) whose Content-Length field is absent or is not a
+   HdrSpec.decimal, Recv returns "missing required content-length" / "invalid content-length", with
+   the buffer state untouched and nothing of the body consumed; any defect switch, any policy *)
+Theorem c12_hdr_length_required : forall c p want st s fs body,
+  HdrSpec.headers s fs body ->
+  (forall v n, HdrSpec.field HdrSpec.key_length fs = Some v -> ~ HdrSpec.decimal v n) ->
+  Hdr.recv c p want st s = Err EMissingLength st body \/ Hdr.recv c p want st s = Err EInvalidLength st body.
+Proof. exact hdr_length_required. Qed.
+Print Assumptions c12_hdr_length_required.
+
+Theorem c12_hdr_length_missing : forall c p want st s fs body,
+  HdrSpec.headers s fs body ->
+  HdrSpec.field HdrSpec.key_length fs = None \/ HdrSpec.field HdrSpec.key_length fs = Some [] ->
+  Hdr.recv c p want st s = Err EMissingLength st body.
+Proof. exact hdr_length_missing. Qed.
+Print Assumptions c12_hdr_length_missing.
+
+Theorem c12_hdr_length_invalid : forall c p want st s fs body v,
+  HdrSpec.headers s fs body ->
+  HdrSpec.field HdrSpec.key_length fs = Some v -> v <> [] -> (forall n, ~ HdrSpec.decimal v n) ->
+  Hdr.recv c p want st s = Err EInvalidLength st body.
+Proof. exact hdr_length_invalid. Qed.
+Print Assumptions c12_hdr_length_invalid.
+
+Theorem c12_hdr_every_call : forall n p want st s,
+  st <= buf_bound ->
+  match call_n (Hdr.recv cfg_fixed p want) n st s with
+  | Ok _ st' _ | OkWithErr _ _ st' _ | Err _ st' _ => st' <= buf_bound
+  | Crash _ | OutOfFuel => False
+  end.
+Proof. exact hdr_every_call. Qed.
+Print Assumptions c12_hdr_every_call.
+
+(* errors of the header framings consume input; from call |s|+1 on EVERY call returns io.EOF *)
+Theorem c12_hdr_eventually_eof : forall n p want st s,
+  st <= buf_bound -> (length s <= n)%nat ->
+  exists st', st' <= buf_bound /\ call_n (Hdr.recv cfg_fixed p want) n st s = Err EEOF st' [].
+Proof. exact hdr_eventually_eof. Qed.
+Print Assumptions c12_hdr_eventually_eof.
+
+(* ---- all stream framings: what is left is a suffix of what was there, for EVERY outcome ---- *)
+
+(* records, records with an error, bare errors of every kind, either defect switch, any state: the
+   remaining stream is a suffix of the input - nothing fabricated or reordered on error paths *)
+Theorem c12_rest_is_suffix :
+  (forall c b s rest, rest_of (Split.recv c b tt s) = Some rest -> FrameMore.suffix rest s) /\
+  (forall c p want st s rest, rest_of (Hdr.recv c p want st s) = Some rest -> FrameMore.suffix rest s) /\
+  (forall st s rest, rest_of (RawJson.recv st s) = Some rest -> FrameMore.suffix rest s).
+Proof.
+  exact (conj (fun c b s rest => split_rest_is_suffix c b bufio_size s rest bufio_size_pos)
+              (conj hdr_rest_is_suffix rawjson_rest_is_suffix)).
+Qed.
+Print Assumptions c12_rest_is_suffix.
+
 (* ---- RawJSON ---- *)
 
 (* one Recv on any stream, in any decoder state: no panic, no fuel exhaustion *)
@@ -216,6 +284,53 @@ Theorem c12_rawjson_truncation : forall rs r pre suf,
   exists e, RawJson.recv_all (concat (map RawJsonProofs.enc rs) ++ pre) = map IRec rs ++ [IErr e].
 Proof. exact rawjson_truncation. Qed.
 Print Assumptions c12_rawjson_truncation.
+
+(* EVERY error Recv returns - io.EOF, syntax, io.ErrUnexpectedEOF - becomes the decoder state at
+   the call that produced it and consumes nothing; every later Recv returns the same error *)
+Theorem c12_rawjson_error_sticky_from_start : forall st s e st' rest,
+  RawJson.recv st s = Err e st' rest ->
+  st' = Some e /\ rest = s /\ forall s', RawJson.recv st' s' = Err e st' s'.
+Proof. exact rawjson_error_sticky_from_start. Qed.
+Print Assumptions c12_rawjson_error_sticky_from_start.
+
+Theorem c12_rawjson_error_sticky_every_call : forall st s e st' rest,
+  RawJson.recv st s = Err e st' rest -> forall n, call_n RawJson.recv n st s = Err e (Some e) s.
+Proof. exact rawjson_error_sticky_every_call. Qed.
+Print Assumptions c12_rawjson_error_sticky_every_call.
+
+(* truncation, with the error kind and the literals: complete records (objects, arrays, strings,
+   true, false, empty), then a proper non-empty prefix of an object, array, string, true, false or
+   null: the complete records, then io.ErrUnexpectedEOF, and no shortened record *)
+Theorem c12_rawjson_truncation_kind : forall rs r pre suf,
+  Forall (fun r => r = [] \/ json_record_lit r = true) rs ->
+  (json_record r = true \/ r = j_true \/ r = j_false \/ r = s_null) ->
+  r = pre ++ suf -> pre <> [] -> suf <> [] ->
+  RawJson.recv_all (concat (map RawJsonProofs.enc rs) ++ pre) = map IRec rs ++ [IErr EUnexpectedEOF].
+Proof. exact rawjson_truncation_kind. Qed.
+Print Assumptions c12_rawjson_truncation_kind.
+
+(* THE EXCEPTION to "a final record cut off by end of stream is reported with an error": a bare
+   number is not self-delimiting - 12 cut from 123 is accepted as 12, and 1 followed by 2 arrives
+   as 12 - which is why the record grammar of C11 (json_record_lit) excludes numbers *)
+Theorem c12_rawjson_number_exception :
+  RawJson.recv_all [49; 50; 51] = [IRec [49; 50; 51]; IErr EEOF] /\
+  RawJson.recv_all [49; 50] = [IRec [49; 50]; IErr EEOF] /\
+  RawJson.recv_all ([49] ++ [50]) = [IRec [49; 50]; IErr EEOF] /\
+  json_record_lit [49; 50; 51] = false.
+Proof. exact rawjson_number_truncation_accepted. Qed.
+Print Assumptions c12_rawjson_number_exception.
+
+Theorem c12_rawjson_every_call : forall n st s,
+  match call_n RawJson.recv n st s with Crash _ | OutOfFuel => False | _ => True end.
+Proof. exact rawjson_every_call. Qed.
+Print Assumptions c12_rawjson_every_call.
+
+(* after at most |s| records the first error has happened; from then on EVERY call returns it *)
+Theorem c12_rawjson_eventually_fails : forall n s,
+  (length s <= n)%nat ->
+  exists e rest, forall m, (n <= m)%nat -> call_n RawJson.recv m None s = Err e (Some e) rest.
+Proof. exact rawjson_eventually_fails. Qed.
+Print Assumptions c12_rawjson_eventually_fails.
 
 (* ---- the server and a final record delivered together with io.EOF ---- *)
 
